@@ -739,36 +739,52 @@ func (cfg *Config) wordFields(wps []syntax.WordPart) ([][]fieldPart, error) {
 			}
 			curField = append(curField, fp)
 		case *syntax.DblQuoted:
-			if len(wp.Parts) == 1 {
-				pe, _ := wp.Parts[0].(*syntax.ParamExp)
-				elems, err := cfg.quotedElemFields(pe)
+			// A list expansion like "$@" produces one field per element,
+			// also when it sits next to other parts as in "a$@b":
+			// the first and last elements join their neighbors.
+			start := len(curField)
+			emptyList := false // saw a list expansion without any elements
+			nonEmpty := false  // saw a list element or a non-empty string
+			for i, part := range wp.Parts {
+				if pe, _ := part.(*syntax.ParamExp); pe != nil {
+					elems, err := cfg.quotedElemFields(pe)
+					if err != nil {
+						return nil, err
+					}
+					if elems != nil {
+						for j, elem := range elems {
+							if j > 0 {
+								flush()
+							}
+							curField = append(curField, fieldPart{
+								quote: quoteDouble,
+								val:   elem,
+							})
+							nonEmpty = true
+						}
+						emptyList = emptyList || len(elems) == 0
+						continue
+					}
+				}
+				wfield, err := cfg.wordField(wp.Parts[i:i+1], quoteDouble)
 				if err != nil {
 					return nil, err
 				}
-				if elems != nil {
-					for i, elem := range elems {
-						if i > 0 {
-							flush()
-						}
-						curField = append(curField, fieldPart{
-							quote: quoteDouble,
-							val:   elem,
-						})
-					}
-					continue
+				for _, part := range wfield {
+					part.quote = quoteDouble
+					curField = append(curField, part)
+					nonEmpty = nonEmpty || part.val != ""
 				}
 			}
-			wfield, err := cfg.wordField(wp.Parts, quoteDouble)
-			if err != nil {
-				return nil, err
-			}
-			if len(wfield) == 0 {
+			switch {
+			case nonEmpty:
+			case emptyList:
+				// "$@" without positional parameters is no field at all,
+				// even next to other parts as long as they are all empty.
+				curField = curField[:start]
+			case len(curField) == start:
 				// "" is part of a field even though it is empty.
 				curField = append(curField, fieldPart{quote: quoteDouble})
-			}
-			for _, part := range wfield {
-				part.quote = quoteDouble
-				curField = append(curField, part)
 			}
 		case *syntax.ParamExp:
 			if elems, ok := cfg.unquotedElemFields(wp); ok {
